@@ -40,7 +40,7 @@ KINDS = sim_shm.C08_KINDS
 
 
 def correspond(ctx):
-    n = ctx.budget(260, 6000)
+    n = ctx.budget(260, 8000)
     sim_shm.run_batch(ctx, KINDS, "c08", n, ctx.budget(80, 120), ctx.budget(5, 6), "C08_*.json")
 
 
